@@ -183,8 +183,20 @@ PathValues == {"5", "bad", ""}
 \* path of an error must be the input's own prefix whatever the tokens contain.
 SpecialToks == {"a+b c", "%2F/:@=&$?#;,"}
 
-\* judged paths: every viable path of at most n tokens, continued by every sequence of
-\* at most x tokens (one-token corruptions and over-long tails of every valid prefix)
-PathsFor(schema, n, x) ==
-  {v \o t : v \in LangKids(schema, n, PathValues \cup SpecialToks), t \in TokSeqs(PathTokens(schema) \cup {"a+b c"}, x)} \ {<< >>}
+\* judged paths: every viable path of at most n tokens, continued by every tail of at most x
+\* tokens (one-token corruptions and over-long tails of every valid prefix).  The first tail
+\* token ranges over the whole alphabet; the further ones over the whole alphabet too (full)
+\* or over the token classes only (a valid value, an invalid one, the empty token, an unknown
+\* name, a token with URL-significant characters, one node name): a longer viable
+\* continuation is a viable path with tails of its own.
+TailAlphabet(schema) == PathTokens(schema) \cup {"a+b c"}
+SmallAlphabet(schema) == {"5", "bad", "", "zz", "a+b c", CHOOSE nm \in AllNames(schema) : TRUE}
+RECURSIVE MoreTails(_, _)
+MoreTails(A, k) == IF k = 0 THEN {<< >>} ELSE {<< >>} \cup {<<a>> \o t : a \in A, t \in MoreTails(A, k - 1)}
+Tails(schema, x, full) ==
+  IF x = 0 THEN {<< >>}
+  ELSE {<< >>} \cup {<<a>> \o t : a \in TailAlphabet(schema),
+                                  t \in MoreTails(IF full THEN TailAlphabet(schema) ELSE SmallAlphabet(schema), x - 1)}
+PathsFor(schema, n, x, full) ==
+  {v \o t : v \in LangKids(schema, n, PathValues \cup SpecialToks), t \in Tails(schema, x, full)} \ {<< >>}
 =============================================================================
